@@ -56,6 +56,7 @@ def prefetch(repo, work):
             ('c09_rd.cc', '#include "mp/nl-reader.h"\n' + PROBES_RD, 'mp::ReadError'), ('c09_rd.cc', '#include "mp/nl-reader.h"\n' + PROBES_RD, 'mp::BinaryReadError'),
             ('c09_rd.cc', '#include "mp/nl-reader.h"\n' + PROBES_RD, 'c09probe_'),
             ('c09_app.cc', '#include "mp/backend-app.h"\n', 'mp::BackendApp::Run'), ('c09_app.cc', '#include "mp/backend-app.h"\n', 'mp::RunBackendApp'),
+            ('c09_app.cc', '#include "mp/backend-app.h"\n', 'mp::BackendApp::Init'), ('c09_mm.cc', mm, 'mp::StdBackend::ReadNL'), ('c09_mm.cc', mm, 'ReadNLFile'),
             ('c09_hs.cc', hs, 'mp::internal::AppSolutionHandlerImpl'),
             ('c09_mm.cc', mm, 'ReadNLModel'), ('c09_mm.cc', mm, 'mp::internal::SolverNLHandlerImpl'), ('c09_mm.cc', mm, 'RunFromNLFile'),
             ('c09_sol.cc', '#include "mp/sol.h"\n', 'mp::WriteSolFile')]
@@ -211,6 +212,187 @@ def call_names(n, out=None):
     for c in n.get('inner', []):
         call_names(c, out)
     return out
+
+
+# ------------------------------------------------------------------------------------------ skeletons
+class Src:
+    """source text of the file a function is defined in (names of unresolved member calls in templates)"""
+    def __init__(self, decl):
+        self.file = (decl.get('loc') or {}).get('file') or ((decl.get('loc') or {}).get('expansionLoc') or {}).get('file')
+        self.text = open(self.file, 'rb').read() if self.file and os.path.exists(self.file) else b''
+
+    def token_at_end(self, n):
+        e = (n.get('range') or {}).get('end') or {}
+        if 'offset' not in e or 'tokLen' not in e:
+            return None
+        t = self.text[e['offset']:e['offset'] + e['tokLen']].decode('latin-1')
+        return t if re.fullmatch(r'[A-Za-z_][A-Za-z_0-9]*', t) else None
+
+
+def callee_name(n, src):
+    c = n['inner'][0]
+    while c.get('kind') in ('ImplicitCastExpr', 'ParenExpr') and c.get('inner'):
+        c = c['inner'][0]
+    nm = c.get('name') or c.get('member') or (c.get('referencedDecl') or {}).get('name')
+    if not nm and c.get('kind') in ('UnresolvedMemberExpr', 'UnresolvedLookupExpr', 'CXXDependentScopeMemberExpr'):
+        nm = src.token_at_end(c)
+    if not nm:
+        raise TranslateError('skeleton: callee of a %s (%s) has no name' % (n.get('kind'), c.get('kind')))
+    return nm, c
+
+
+def sk_expr(n, src):
+    """compact text of a condition / callee object: every call, operator and literal in it is visible"""
+    n = strip(n)
+    k = n.get('kind')
+    if k in ('CallExpr', 'CXXMemberCallExpr', 'CXXOperatorCallExpr'):
+        nm, c = callee_name(n, src)
+        args = [sk_expr(a, src) for a in n['inner'][1:]]
+        if k == 'CXXOperatorCallExpr':
+            return '%s%s(%s)' % (args[0] if args else '', '' if nm == 'operator()' else '.' + nm, ','.join(args[1:]))
+        base = ''
+        if c.get('kind') in ('MemberExpr', 'CXXDependentScopeMemberExpr', 'UnresolvedMemberExpr') and c.get('inner'):
+            b = sk_expr(c['inner'][0], src)
+            base = '' if b == 'this' else b + '.'
+        return '%s%s(%s)' % (base, nm, ','.join(args))
+    if k == 'BinaryOperator':
+        return sk_expr(n['inner'][0], src) + n.get('opcode', '?') + sk_expr(n['inner'][1], src)
+    if k == 'UnaryOperator':
+        return n.get('opcode', '?') + sk_expr(n['inner'][0], src)
+    if k == 'IntegerLiteral':
+        return str(n.get('value'))
+    if k == 'StringLiteral':
+        return n.get('value', '""')
+    if k == 'DeclRefExpr':
+        return (n.get('referencedDecl') or {}).get('name', '?')
+    if k in ('MemberExpr', 'CXXDependentScopeMemberExpr'):
+        b = sk_expr(n['inner'][0], src) if n.get('inner') else 'this'
+        return ('' if b == 'this' else b + '.') + (n.get('name') or n.get('member') or '?')
+    if k == 'CXXThisExpr':
+        return 'this'
+    if k in ('CXXConstructExpr', 'CXXTemporaryObjectExpr') and len(n.get('inner', [])) == 1:
+        return sk_expr(n['inner'][0], src)
+    raise TranslateError('skeleton: expression node %s not supported' % k)
+
+
+def sk_tokens(n, src, out, lambdas):
+    """Every call, construction, throw, return and branch of a statement, in evaluation order (arguments before
+    the call).  Nothing is filtered: a call this list does not know is a call the Lean side does not know."""
+    k = n.get('kind')
+    if k == 'LambdaExpr':
+        inner = n.get('inner', [])
+        body = []
+        if inner:
+            sk_tokens(inner[-1], src, body, lambdas)        # the body; the closure class repeats it
+        lambdas.append(body)
+        out.append('lambda#%d' % len(lambdas))
+        return out
+    if k == 'IfStmt':
+        inner = n['inner']
+        if n.get('hasInit') or n.get('hasVar'):
+            raise TranslateError('skeleton: if with init / declaration not supported')
+        out.append('if[%s]' % sk_expr(inner[0], src))
+        sk_tokens(inner[1], src, out, lambdas)
+        if len(inner) > 2:
+            out.append('else')
+            sk_tokens(inner[2], src, out, lambdas)
+        out.append('endif')
+        return out
+    if k == 'ReturnStmt':
+        for c in n.get('inner', []):
+            sk_tokens(c, src, out, lambdas)
+        out.append('return')
+        return out
+    if k == 'CXXThrowExpr':
+        cs = find_all(n, lambda m: m.get('kind') in ('CXXConstructExpr', 'CXXTemporaryObjectExpr', 'CXXUnresolvedConstructExpr', 'CallExpr'))
+        out.append('throw[%s]' % (qt(cs[0]) if cs else ''))
+        return out
+    if k in ('ForStmt', 'WhileStmt', 'DoStmt', 'CXXForRangeStmt', 'SwitchStmt', 'CXXTryStmt', 'CXXCatchStmt', 'GotoStmt',
+             'ConditionalOperator'):
+        out.append(k + '{')
+        for c in n.get('inner', []):
+            sk_tokens(c, src, out, lambdas)
+        out.append('}')
+        return out
+    if k in ('CallExpr', 'CXXMemberCallExpr', 'CXXOperatorCallExpr'):
+        nm, c = callee_name(n, src)
+        for a in n.get('inner', []):
+            sk_tokens(a, src, out, lambdas)
+        if nm == 'operator()':
+            nm = sk_expr(n, src)
+        out.append(nm)
+        return out
+    if k in ('CXXConstructExpr', 'CXXTemporaryObjectExpr', 'CXXNewExpr', 'CXXUnresolvedConstructExpr'):
+        for a in n.get('inner', []):
+            sk_tokens(a, src, out, lambdas)
+        out.append(('new[%s]' if k == 'CXXNewExpr' else 'ctor[%s]') % qt(n))
+        return out
+    for c in n.get('inner', []):
+        sk_tokens(c, src, out, lambdas)
+    return out
+
+
+def skeletons(repo, work):
+    """name -> token list, for the functions between `main` and the solver's answer"""
+    out = {}
+
+    def put(name, decl, body):
+        lambdas = []
+        out[name] = sk_tokens(body, Src(decl), [], lambdas)
+        for i, l in enumerate(lambdas):
+            out['%s_lambda%d' % (name, i + 1)] = l
+
+    app = '#include "mp/backend-app.h"\n'
+    docs = clang(repo, work, 'c09_app.cc', app, 'mp::RunBackendApp')
+    d = [x for x in docs if x.get('kind') == 'FunctionDecl' and x.get('name') == 'RunBackendApp' and body_of(x) is not None]
+    if not d:
+        raise TranslateError('RunBackendApp not found')
+    st = body_of(d[0])['inner']
+    if not st or st[0].get('kind') != 'CXXTryStmt':
+        raise TranslateError('RunBackendApp: expected a try statement first')
+    put('skRunBackendApp', d[0], st[0]['inner'][0])
+    docs = clang(repo, work, 'c09_app.cc', app, 'mp::BackendApp::Run')
+    d = defined(docs, 'CXXMethodDecl', 'Run')
+    st = body_of(d)['inner']
+    if not st or st[0].get('kind') != 'CXXTryStmt':
+        raise TranslateError('BackendApp::Run: expected a try statement first')
+    put('skRun', d, st[0]['inner'][0])
+    docs = clang(repo, work, 'c09_app.cc', app, 'mp::BackendApp::Init')
+    d = defined(docs, 'CXXMethodDecl', 'Init')
+    put('skInit', d, body_of(d))
+    mm = '#include "mp/model-mgr-with-pb.h"\n#include "mp/backend-std.h"\n'
+    for f, filt in (('RunFromNLFile', 'RunFromNLFile'), ('ReadNL', 'mp::StdBackend::ReadNL'), ('ReadNLModel', 'ReadNLModel'), ('ReadNLFile', 'ReadNLFile')):
+        docs = clang(repo, work, 'c09_mm.cc', mm, filt)
+        d = [x for x in docs if x.get('name') == f and body_of(x) is not None]
+        if len(d) != 1:
+            raise TranslateError('%s: expected one definition, found %d' % (f, len(d)))
+        put('sk' + f, d[0], body_of(d[0]))
+    docs = clang(repo, work, 'c09_mm.cc', mm, 'mp::internal::SolverNLHandlerImpl')
+    ms = []
+    for x in docs:
+        ms += find_all(x, lambda n: n.get('kind') == 'CXXMethodDecl' and n.get('name') == 'OnHeader' and body_of(n) is not None)
+    if len(ms) != 1:
+        raise TranslateError('SolverNLHandlerImpl::OnHeader: expected one definition, found %d' % len(ms))
+    put('skOnHeader', ms[0], body_of(ms[0]))
+    return out
+
+
+def writer_closes_file(repo, work):
+    """Is the last statement of WriteSolFile `file.close()` on the fmt::BufferedFile the data went to?"""
+    docs = clang(repo, work, 'c09_sol.cc', '#include "mp/sol.h"\n', 'mp::WriteSolFile')
+    d = []
+    for x in docs:
+        d += find_all(x, lambda n: n.get('kind') == 'FunctionDecl' and n.get('name') == 'WriteSolFile' and body_of(n) is not None)
+    if not d:
+        raise TranslateError('WriteSolFile not found')
+    b = body_of(d[0])
+    files = [v for v in find_all(b, lambda n: n.get('kind') == 'VarDecl') if 'BufferedFile' in qt(v)]
+    if len(files) != 1:
+        raise TranslateError('WriteSolFile: expected one fmt::BufferedFile variable')
+    last = strip(b['inner'][-1])
+    nm, obj = member_call_name(last)
+    return bool(nm == 'close' and obj is not None and obj.get('kind') == 'DeclRefExpr'
+                and (obj.get('referencedDecl') or {}).get('name') == files[0].get('name'))
 
 
 # ------------------------------------------------------------------------------------------ pieces
@@ -635,7 +817,7 @@ def structure(repo, work):
 
 
 def lean_list(xs):
-    return '[' + ', '.join('"%s"' % x for x in xs) + ']'
+    return '[' + ', '.join('"%s"' % x.replace('\\', '\\\\').replace('"', '\\"') for x in xs) + ']'
 
 
 def generate(repo, work):
@@ -740,6 +922,16 @@ def generate(repo, work):
     for k in ('readNLModelAfterHeader', 'readNLModelCalls', 'onHeaderCalls', 'runFromNLFileCalls', 'solCountLines'):
         L.append('def %s : List String := %s' % (k, lean_list(st[k])))
     L.append('def onHeaderThrowBeforeBase : Bool := %s' % ('true' if st['onHeaderThrowBeforeBase'] else 'false'))
+    L.append('/-- the last statement of WriteSolFile is `file.close()` (which throws if a write failed) -/')
+    L.append('def solWriterClosesFile : Bool := %s' % ('true' if writer_closes_file(repo, work) else 'false'))
+    L.append('')
+    L.append('/-! ## skeletons: every call / construction / branch / throw / return of the functions between `main`')
+    L.append('and the solver\'s answer, unfiltered, in evaluation order (arguments before the call; `lambda#i` = the')
+    L.append('i-th lambda expression of the function, its body is `<function>_lambda<i>`) -/')
+    sk = skeletons(repo, work)
+    for k in sk:
+        L.append('def %s : List String := %s' % (k, lean_list(sk[k])))
+    L.append('def skeletonTable : List (String × List String) := [%s]' % ', '.join('("%s", %s)' % (k, k) for k in sk))
     L.append('')
     L.append('end MpVerif.Gen.C09')
     return '\n'.join(L) + '\n'
